@@ -513,6 +513,8 @@ def run_verus(scr, unit, seed=0):
     except Exception:
         raise Undecided("verus produced no JSON for unit %s:\n%s" % (unit.name, _tail(p.stderr, 40)))
     vr = js.get("verification-results", {})
+    if "panicked at" in p.stderr and "rust_verify" in p.stderr:
+        raise Undecided("verus crashed on unit %s (tool limit, not a verification failure):\n%s" % (unit.name, _tail(p.stderr[:3000], 12)))
     if vr.get("encountered-vir-error") or ("verified" not in vr):
         raise Undecided("verus rejected unit %s (not a verification failure):\n%s" % (unit.name, _tail(p.stderr, 60)))
     funcs = {}
